@@ -68,6 +68,8 @@ func classifyTreeErr(je *jerr.JApiError) string {
 		return "noctx"
 	case strings.HasPrefix(je.Msg, jerr.ContextNotClosed):
 		return "unclosed"
+	case strings.HasPrefix(je.Msg, jerr.ThereIsNoDirectiveForExplicitContext):
+		return "noopen"
 	}
 	return "other:" + je.Msg
 }
@@ -161,7 +163,7 @@ func c11Check(cs *c11Case) (ok bool, what string, nontrivial bool) {
 		if o.ExpRes == "ok" && o.ExpShape != o.ScanShape {
 			return false, fmt.Sprintf("the MACRO/PASTE pass re-nests the directives: scanned tree [%s], after the pass [%s]", o.ScanShape, o.ExpShape), nontrivial
 		}
-	case "ctxerr", "noctx":
+	case "ctxerr", "noctx", "noopen":
 		if o.Res != cs.R {
 			return false, fmt.Sprintf("spec: %s on token %d; code: %s at line %d", cs.R, last, o.Res, o.Line), nontrivial
 		}
